@@ -454,6 +454,8 @@ func AlphaFamilies(tier string) []AlphaSpec {
 			Probes: []string{P(12), P(13), P(12) + "x" + Q(5)},
 		})
 	}
+	// key lengths around powers of two (scratch-buffer / fast-path thresholds), as separate leaves and under one long shared path
+	out = append(out, LengthSpecs()...)
 	// fan-out windows
 	fans := []FanSpec{
 		{Name: "FAN0-8", Hold: 0, Present: 0, Absent: 8},
@@ -549,4 +551,22 @@ func AlphaFamilies(tier string) []AlphaSpec {
 // NulSpec is the universe that contains the known finding D9.
 func NulSpec() AlphaSpec {
 	return AlphaSpec{Name: "NUL", Free: []string{"", "\x00", "a", "a\x00", "a\x00b", "a\x00c", "b"}}
+}
+
+// LengthSpecs: keys whose lengths straddle 16, 32, 64, 128, 256 and 1024 bytes.
+func LengthSpecs() []AlphaSpec {
+	var out []AlphaSpec
+	for gi, lens := range [][]int{{15, 16, 17, 31, 32, 33}, {63, 64, 65, 127, 128, 129}, {255, 256, 257, 1023, 1024, 1025}} {
+		var distinct, shared []string
+		for i, n := range lens {
+			distinct = append(distinct, string([]byte{byte('a' + i)})+rep('x', n-1))
+			shared = append(shared, rep('s', n-1)+string([]byte{byte('A' + i)}))
+		}
+		out = append(out,
+			AlphaSpec{Name: fmt.Sprintf("LEN%d-distinct", gi), Free: distinct, Probes: []string{"a" + rep('x', lens[0]), rep('x', lens[1])}, NoAutoP: true,
+				Prefixes: []string{"a", distinct[1][:lens[1]-1], distinct[2]}},
+			AlphaSpec{Name: fmt.Sprintf("LEN%d-shared", gi), Free: shared, Probes: []string{rep('s', lens[0]-1), rep('s', lens[5])}, NoAutoP: true,
+				Prefixes: []string{rep('s', lens[0]-1), rep('s', lens[3]), shared[1]}})
+	}
+	return out
 }
